@@ -146,9 +146,17 @@ def r_track(ctx):
             raise AnalysisError("%s._recover_dual_values missing" % be.name)
         ctx.unit(qualname(fn))
         loops = [l for l in flow.stmts_of(fn, ast.For) if dotted(l.iter) == "self." + TRACKED]
+        prog = ("none",)
+        if be.name == "MosekWrapper":
+            from . import mosekprog
+            try:
+                mosekprog.r_mosek_duals(ctx)          # the recovery unrolled on every sequence of tracked kinds decides; the loop shape is one way of writing it
+                prog = ("mosekdual",)
+            except AnalysisError:
+                pass
         if len(loops) != 1:
-            ctx.ob("R-TRACK", "%s._recover_dual_values::one element per tracked object" % be.name, False,
-                   "%d loops over the tracked list" % len(loops), loc(fn, fn))
+            ctx.ob_or_program(prog, "R-TRACK", "%s._recover_dual_values::one element per tracked object" % be.name, False,
+                              "%d loops over the tracked list" % len(loops), loc(fn, fn))
             continue
         lp = loops[0]
         out_name = _returned_list_name(fn)
@@ -159,7 +167,7 @@ def r_track(ctx):
         pc = flow.path_counts(lp.body, is_out_append)
         normal = pc.get("next", set()) | pc.get("continue", set())
         ok = normal == {1} and "break" not in pc and "return" not in pc
-        ctx.ob("R-TRACK", "%s._recover_dual_values::one element per tracked object" % be.name, ok,
+        ctx.ob_or_program(prog, "R-TRACK", "%s._recover_dual_values::one element per tracked object" % be.name, ok,
                "exactly one multiplier is emitted per tracked object on every branch" if ok else
                "multipliers emitted per tracked object: %s" % {k: sorted(v) for k, v in pc.items()}, loc(fn, lp))
         before = [n for s in fn.body for n in ast.walk(s) if is_out_append(n) and n.lineno < lp.lineno]
@@ -167,7 +175,7 @@ def r_track(ctx):
         lit = [s0 for s0 in fn.body if isinstance(s0, ast.Assign) and dotted(s0.targets[0]) == out_name and isinstance(s0.value, ast.List) and s0.lineno < lp.lineno]
         n_before = len(before) + (len(lit[-1].value.elts) if lit else 0)
         okf = n_before == 1
-        ctx.ob("R-TRACK", "%s._recover_dual_values::residual first" % be.name, okf,
+        ctx.ob_or_program(prog, "R-TRACK", "%s._recover_dual_values::residual first" % be.name, okf,
                "the Gram residual is the first element of the recovered list" if okf else
                "%d elements are emitted before the loop over tracked objects (expected the Gram residual only)" % n_before, loc(fn, fn))
 
@@ -782,7 +790,14 @@ def _rowidx_reads(ctx, mb, ROWS):
         k = reads[0].slice
         okr = isinstance(k, ast.Name) and len([s for s in flow.stmts_of(rec, ast.AugAssign) if isinstance(s.target, ast.Name) and s.target.id == k.id and is_const(s.value, 1)]) == 1 \
             and any(isinstance(s, ast.Assign) and any(isinstance(t, ast.Name) and t.id == k.id for t in s.targets) and is_const(s.value, 0) for s in rec.body)
-    ctx.ob("R-ROWIDX", "MosekWrapper._recover_dual_values::y at the recorded row", okr,
+    from . import mosekprog
+    prog = ("none",)
+    try:
+        mosekprog.r_mosek_duals(ctx)
+        prog = ("mosekdual",)
+    except AnalysisError:
+        pass
+    ctx.ob_or_program(prog, "R-ROWIDX", "MosekWrapper._recover_dual_values::y at the recorded row", okr,
            "the k-th tracked scalar constraint reads y at its recorded row" if okr else "scalar multipliers are not read at the recorded rows in order", loc(rec, rec))
 
 
@@ -808,9 +823,48 @@ def r_baridx(ctx):
                         a = ds[0].value
                 n += 1
                 ok, why = _bar_index_ok(fn, a)
-                ctx.ob("R-BARIDX", "MosekWrapper.%s::%s(%s)" % (fn.name, call_name(c), anon_src(a)), ok, why, loc(fn, c))
+                prog = ("none",)
+                if fn.name == "_recover_dual_values" or (getattr(fn, "_parent_fn", None) is not None):
+                    from . import mosekprog
+                    try:
+                        mosekprog.r_mosek_duals(ctx)
+                        prog = ("mosekdual",)
+                    except AnalysisError:
+                        pass
+                ctx.ob_or_program(prog, "R-BARIDX", "MosekWrapper.%s::%s(%s)" % (fn.name, call_name(c), anon_src(a)), ok, why, loc(fn, c))
     ctx.count("bar-variable index sites", n)
     return n
+
+
+def r_lmiorder(ctx):
+    """While the MOSEK back-end couples an LMI to the matrix variable numbered by the LMI's *creation* counter (finding F8), the two back-ends
+    formulate the same program only if LMIs reach the wrapper in creation order.  The solve root cannot know in which order the user declared
+    things, but it does know that class LMIs are created during the solve, after everything the user declared: every source of declared LMIs
+    that the unrolled solve root sends *after* the class LMIs is a pair whose matrix variables are exchanged."""
+    from . import solveprog
+    mb = _be(ctx.repo, "mosek")
+    by_creation = False
+    for fn in mb.methods.values():
+        for c in ast.walk(fn):
+            if isinstance(c, ast.Call) and call_name(c) == "putbaraij" and len(c.args) > 1 and not _bar_index_ok(fn, c.args[1])[0]:
+                by_creation = True
+    root = common.solve_root(ctx.repo)
+    if not by_creation:
+        ctx.ob("R-LMIORDER", "PEP.%s::order of the LMIs" % root.name, True, "matrix variables are addressed in send order: no order is imposed on the solve root", loc(root, root))
+        return 0
+    n = solveprog.r_solve_program(ctx, set())
+    if n == 0:
+        ctx.notes.append("R-LMIORDER: solve root not unrolled; the order in which LMIs are sent is not decided")
+        return 0
+    inv = sorted(getattr(ctx, "_lmi_inversions", set()))
+    for a0, b0 in inv:
+        ctx.ob("R-LMIORDER", "PEP.%s::%s are sent before %s" % (root.name, a0, b0), False,
+               "%s are created during the solve, %s before it, yet the former reach the wrapper first: the MOSEK back-end, which numbers matrix variables by "
+               "creation counter, couples each of these LMIs (and reads its multiplier) with the matrix variable of another one; the cvxpy back-end does not" % (a0, b0),
+               loc(root, root))
+    if not inv:
+        ctx.ob("R-LMIORDER", "PEP.%s::order of the LMIs" % root.name, True, "no LMI generated during the solve is sent before a declared one", loc(root, root))
+    return len(inv)
 
 
 def _bar_index_ok(fn, a, depth=0):
